@@ -3,7 +3,7 @@
 import json, sys
 
 CLAIMED = {
- "C01": ("SPEC differential", "4", "generated (path AST, document) pairs; library result compared with the independent SPEC interpreter: exact sequence/multiplicity/order, error iff SPEC selects nothing; cases reach the library through Parse or Retrieve, with or without a Config, 1 in 4 after a twin path differing by one character; the document is given new content in place and evaluated again"),
+ "C01": ("SPEC differential", "4", "generated (path AST, document) pairs; library result compared with the independent SPEC interpreter: exact sequence/multiplicity/order, error iff SPEC selects nothing; cases reach the library through Parse or Retrieve, with or without a Config, 1 in 4 after a twin path differing by one character; the document is given new content in place and evaluated again; one parsed path shared by 2..5 goroutines on different documents under the race detector (TestC01_SharedParsed); documents with shared containers and arrays that are windows of one another; a decoy Config with the same function names goes first for one case in five"),
  "C02": ("validity predicate over generated/mutated/enumerated strings", "4", "about 1e6 generated strings per quick run (grammar-derived, mutated, token soup, Unicode, invalid UTF-8, boundary integers) plus the completely enumerated reduced grammar, under 4 configs: Parse returns exactly one of (function, nil) / (nil, documented syntax-check error), never panics, dies or hangs; every accepted path is also evaluated on hard documents (all JSON types side by side, numbers beyond the float64 range, uncomparable Go values)"),
  "C03": ("validity predicate + SPEC cross-check over generated (path, document) pairs", "4", "every accepted path of the C02 generators evaluated on generated documents (directed, free, empty, null/scalar roots; both decodings; failing user functions): result is (non-empty, nil) or (nil, documented runtime error), ErrorFunctionFailed only after a user function failed, and 'SPEC selects nothing' <=> error; plus every accepted sentence of the enumerated reduced grammar evaluated on six documents (small, hard in both decodings, Go-built with uncomparable values) (TestC03_Reduced)"),
  "C04": ("invariant (type-exact snapshot + storage headers) over generated cases; shared-document scenario under the race detector", "4", "document snapshot (values, dynamic types, slice headers, map identities) before vs after every generated retrieval, success or failure, accessor mode on/off; plus goroutines evaluating filter-heavy paths on one shared document under -race, where a write that is later undone shows up as a data race; result slices are handed back as source documents; function names no Config registers are appended"),
